@@ -37,7 +37,8 @@ theorem fwdByteLoop_spec (m : Mem) (p : UInt8 → Bool) (end_ ptr : Nat) (c : Ct
     by_cases hp : p (m.byteAt ptr) = true
     · simp only [hp, if_true]
       exact ⟨some ptr, _, rfl, Nat.le_refl _, h, hp, NoHit.empty m p (Nat.le_refl _)⟩
-    · simp only [hp]
+    · have hpa := Mem.padd_ok m "fwd_byte_by_byte: ptr.offset(1)" ptr 1 hb (by omega)
+      simp only [hp, hpa]
       obtain ⟨r, c', hrun, hres⟩ := ih
         { steps := c.steps + 1, loads := ⟨m.region, ptr - m.base, 1, false⟩ :: c.loads }
         (by omega) (by omega)
@@ -63,7 +64,8 @@ theorem revByteLoop_spec (m : Mem) (p : UInt8 → Bool) (start ptr : Nat) (c : C
   fun_induction Generic.revByteLoop m p start ptr generalizing c with
   | case1 ptr h ih =>
     have hr := Mem.read_ok m (ptr - 1) { c with steps := c.steps + 1 } (by omega) (by omega)
-    simp only [M.bind_run, tick_run, hr]
+    have hps := Mem.psub_ok m "rev_byte_by_byte: ptr.offset(-1)" ptr 1 (by omega) he
+    simp only [M.bind_run, tick_run, hps, M.pure_run, hr]
     by_cases hp : p (m.byteAt (ptr - 1)) = true
     · simp only [hp, if_true]
       exact ⟨some (ptr - 1), _, rfl, by omega, by omega, hp, NoHit.empty m p (by omega)⟩
